@@ -130,7 +130,7 @@ def build_impl(tmp, log, extra_flags='', name='impl', sanitize=True):
     return os.path.join(tmp, name)
 
 
-def run_driver(exe, lines, tmp, env_extra=None, timeout=3000):
+def _run_one(exe, lines, tmp, env_extra=None, timeout=3000):
     env = dict(os.environ); env['ASAN_OPTIONS'] = 'detect_leaks=0:abort_on_error=0:log_path=%s/asan:allocator_may_return_null=1' % tmp
     env['UBSAN_OPTIONS'] = 'print_stacktrace=1:log_path=%s/ubsan' % tmp
     if env_extra: env.update(env_extra)
@@ -141,6 +141,21 @@ def run_driver(exe, lines, tmp, env_extra=None, timeout=3000):
         k, _, v = l.partition(' ')
         if k.isdigit(): outs[int(k)] = v
     return [outs.get(i, 'NOOUTPUT') for i in range(len(lines))], p.stderr.decode(errors='replace')
+
+
+def run_driver(exe, lines, tmp, env_extra=None, timeout=3000, shards=None):
+    """runs the case lines through a driver; large case files are split over the cores (cases are independent)"""
+    n = len(lines)
+    if shards is None: shards = 1 if n < 600 else min(14, (n + 299) // 300)
+    if shards <= 1: return _run_one(exe, lines, tmp, env_extra, timeout)
+    from concurrent.futures import ThreadPoolExecutor
+    size = (n + shards - 1) // shards
+    chunks = [lines[i:i + size] for i in range(0, n, size)]
+    with ThreadPoolExecutor(max_workers=len(chunks)) as ex:
+        res = list(ex.map(lambda ch: _run_one(exe, ch, tmp, env_extra, timeout), chunks))
+    outs = []; errs = ''
+    for o, e in res: outs += o; errs += e
+    return outs, errs
 
 
 def sanitizer_logs(tmp):
